@@ -473,15 +473,15 @@ impl Prop for P {
     fn plan(tier: Tier) -> Plan {
         match tier {
             Tier::Quick => Plan {
-                workers: 8,
-                cases_per_worker: 400,
+                workers: 16,
+                cases_per_worker: 5000,
                 timeout_s: 1800,
                 max_shrink_iters: 1500,
             },
             Tier::Thorough => Plan {
                 workers: 16,
-                cases_per_worker: 10000,
-                timeout_s: 7200,
+                cases_per_worker: 80000,
+                timeout_s: 14400,
                 max_shrink_iters: 1500,
             },
         }
